@@ -6,7 +6,7 @@ from C03 import SPEC as _C03, rewrite_counter_imports
 # rotate1 / newCounter1 under the deterministic scheduler against Model/CounterConc), run here with its fault
 # oracles: an access through a closed mapping by a call that entered its section after the close is a violation.
 CONC_FAULT = Suite(
-    name="conc", harness="vh_conc", runner="conc", model_deps=["theories/Model/CounterConc.vo"],
+    name="conc", harness="vh_conc", runner="conc", model_deps=["theories/Model/CounterConc.vo", "theories/Model/CounterMulti.vo"],
     quick_n=150, thorough_n=3000, rewrite=rewrite_counter_imports, tags="verif,verifconc",
     rule=_C03["suites"][0].rule + " (C05 runs fewer random scenarios than C03 and the same systematic schedules; its "
          "interest here are the oracles panic, hang and entered-through-closed-mapping, and the scenario `grow` in "
